@@ -1,0 +1,23 @@
+//go:build verif
+
+package pubsub
+
+import (
+	"sort"
+
+	"github.com/anyproto/any-sync/util/simhook"
+)
+
+// verifOrder replaces a map iteration order (spaces to resync, patterns of an interest frame) by an order the simulator decides
+// (sorted, then permuted), so that a seed is an exactly repeatable execution.
+func verifOrder(point string, ids []string) {
+	sort.Strings(ids)
+	p := simhook.Perm(point, len(ids))
+	if len(p) != len(ids) {
+		return
+	}
+	cp := append([]string(nil), ids...)
+	for i, j := range p {
+		ids[i] = cp[j]
+	}
+}
